@@ -246,7 +246,7 @@ def check_iteration_ends(f, rep):
                         is_err = True
                 if is_err:
                     errs.append(bb)
-    rep.floor("R", "error returns of FileIterator::next", len(errs), 3)
+    rep.floor("R", "error returns of FileIterator::next", len(errs), 1)
     for i, bb in enumerate(sorted(errs)):
         ok = any(t_ == bb or it.dominates(t_, bb) for t_ in terminal)
         rep.check(ok, "R", "FileIterator::next|error-ends-iteration|#%d" % i, "an error return of FileIterator::next ends the iteration",
